@@ -25,6 +25,7 @@ var Registry = map[string]Prop{
 	"C13": {C13, c13Replay},
 	"C14": {C14, c14Replay},
 	"C15": {C15, c15Replay},
+	"C16": {C16, c16Replay},
 	"C17": {C17, c17Replay},
 	"C18": {C18, c18Replay},
 	"C19": {C19, c19Replay},
